@@ -679,3 +679,26 @@ Contract(
     note="the abstract contract used by the main loop (a fresh list of pre-existing, well-formed tasks) verified against the body under the pool invariant and the agreement of each pool's task map with its workers",
     props=("C03", "C05"),
 )
+
+
+# =================================================================================================
+# WorkerPool.resources : the pool-level view of the ledgers is an observation (C04, seed C04-3)
+# =================================================================================================
+Contract(
+    "workers.workers.WorkerPool.resources",
+    params={"self": S_.WorkerPool.ty},
+    ret=T.Ref("workload.resources.Resources"),
+    requires=lambda c: {
+        "workers_not_none": z3.ForAll(
+            [z3.Int("pr_k")],
+            z3.Implies(z3.And(0 <= z3.Int("pr_k"), z3.Int("pr_k") < n_workers(c.pre, c.arg("self"))), z3.And(worker_at(c.pre, c.arg("self"), z3.Int("pr_k")) != 0, wres(c.pre, worker_at(c.pre, c.arg("self"), z3.Int("pr_k"))) != 0)),
+            patterns=[worker_at(c.pre, c.arg("self"), z3.Int("pr_k"))],
+        )
+    },
+    modifies=lambda c: {},
+    loops={0: Loop(inv=lambda c, L: {"sum_is_a_fresh_object": z3.And(L.var("final_resources") >= c.alloc0, L.var("final_resources") < c.run.cur_alloc())}, modifies=lambda c: {})},
+    ensures=lambda c: {"pool_resources.fresh_view": c.res >= c.alloc0},
+    allocates=True,
+    note="C04: reading the pool-level resources builds a fresh sum (Resources.__add__, proved to write no pre-existing object) and writes nothing that existed before (frame obligations)",
+    props=("C04",),
+)
